@@ -16,7 +16,13 @@ func Replay(r *mon.Run, raw json.RawMessage) {
 		r.Inconclusive("bad replay case")
 		return
 	}
-	e, err := envFor(c.Rule)
+	var e *env
+	var err error
+	if c.Kind == "c04-seq" {
+		e, err = buildDynamic(c.Rules)
+	} else {
+		e, err = envFor(c.Rule)
+	}
 	if err != nil {
 		r.Inconclusive("rule not registrable on this tree: " + err.Error())
 		return
